@@ -26,7 +26,8 @@ Conforms(a, pred, o) ==
                              /\ (Len(Proj(pred.recs, s)) > BufSize => Len(Proj(o.recs, s)) >= BufSize)
        ELSE Proj(o.recs, s) = Proj(pred.recs, s)
   /\ \A i \in DOMAIN o.recs : o.recs[i].seq \in SeqIds
-  /\ o.logs \subseteq (IF C.mon # 0 THEN {C.mon} ELSE {}) \cup (IF a.a = "monitor" THEN {a.seq} ELSE {})
+  \* log lines buffered before a stop may still arrive after it: any monitor acknowledged so far
+  /\ o.logs \subseteq M.mons \cup (IF a.a = "monitor" THEN {a.seq} ELSE {})
 
 TraceInit == Init /\ l = 1
 Step ==
